@@ -300,6 +300,56 @@ func runAttach(res *vk.Result, r *vk.Rand, scratch string, j *os.File, worker in
 			return
 		}
 	}
+	// concurrent attach attempts on a closed replica: at most one may succeed
+	for round := 0; round < 6; round++ {
+		b, _ := json.Marshal(map[string]string{"k": fmt.Sprintf("REQ concurrent attach round %d", round)})
+		j.Write(append(b, '\n'))
+		n := 4 + round%5
+		type resT struct {
+			be  interface{ Close() error }
+			err error
+		}
+		ch := make(chan resT, n)
+		start := make(chan struct{})
+		for g := 0; g < n; g++ {
+			go func() {
+				<-start
+				be, err := fac.Create(addr)
+				if err != nil {
+					ch <- resT{nil, err}
+					return
+				}
+				ch <- resT{be, nil}
+			}()
+		}
+		close(start)
+		okc := 0
+		var bes []interface{ Close() error }
+		for g := 0; g < n; g++ {
+			x := <-ch
+			if x.err == nil {
+				okc++
+				bes = append(bes, x.be)
+			}
+		}
+		res.Count("concurrent_attach_rounds", 1)
+		if okc > 1 {
+			fail("attach:attached-twice-concurrently", fmt.Sprintf("%d of %d concurrent Create calls on a closed replica succeeded", okc, n))
+			return
+		}
+		if okc == 0 {
+			res.Count("concurrent_attach_rounds_without_winner", 1)
+		}
+		for _, be := range bes {
+			be.Close()
+		}
+		if s.Replica() != nil {
+			if err := s.Close(); err != nil {
+				fail("attach:close-failed", err.Error())
+				return
+			}
+		}
+	}
 	names := []string{}
 	for k := range actionTable {
 		names = append(names, k)
